@@ -2,13 +2,15 @@
 (* decision table of grid.py determineNK / autoNK: one state per input; states (all of them in the thorough tier up to a cap, a
    seeded sample in the quick tier) are replayed on the real function: accepted / refused, returned NKdiv, NKFFT *)
 EXTENDS FactorKernel
-CONSTANTS GROUPS, SCALARS, VECTORS, RECS
+CONSTANTS GROUPS, SCALARS, VECTORS, RECS, PERIODICS
 VARIABLES grp, gset, periodic, NKdiv, NKFFT, NK, rec, res, ambiguous
 vars == <<grp, gset, periodic, NKdiv, NKFFT, NK, rec, res, ambiguous>>
 (* cfg files cannot hold tuples: the model's vector sets are chosen by  VECTORS <- VecsA  etc. *)
 VecsA == {<<4, 4, 1>>, <<4, 2, 2>>, <<2, 4, 2>>, <<6, 3, 1>>, <<3, 3, 2>>, <<5, 5, 3>>}
 VecsB == VecsA \cup {<<8, 8, 1>>, <<6, 6, 4>>, <<12, 12, 1>>, <<9, 9, 9>>}
 VecsQ == {<<4, 4, 1>>, <<4, 2, 2>>, <<6, 3, 1>>, <<5, 5, 2>>}
+PerAll == {<<TRUE, TRUE, TRUE>>, <<TRUE, TRUE, FALSE>>, <<TRUE, FALSE, FALSE>>}
+PerQ == {<<TRUE, TRUE, TRUE>>, <<TRUE, TRUE, FALSE>>}
 RecsQ == {<<1, 1, 1>>, <<2, 2, 1>>, <<3, 3, 3>>}
 RecsA == {<<1, 1, 1>>, <<2, 2, 1>>, <<3, 3, 3>>, <<3, 1, 1>>, <<1, 2, 3>>}
 RecsB == RecsA \cup {<<2, 2, 2>>, <<4, 4, 2>>, <<5, 5, 5>>, <<2, 3, 1>>}
@@ -16,7 +18,7 @@ Args == {None} \cup {<<a, a, a>> : a \in SCALARS} \cup VECTORS
 UsesAuto(d, f, n) == f = None /\ n # None
 Init == /\ grp \in GROUPS
         /\ gset = GroupOf(grp)
-        /\ periodic \in {<<TRUE, TRUE, TRUE>>, <<TRUE, TRUE, FALSE>>, <<TRUE, FALSE, FALSE>>}
+        /\ periodic \in PERIODICS
         /\ NKdiv \in Args /\ NKFFT \in Args /\ NK \in Args
         /\ rec \in (IF UsesAuto(NKdiv, NKFFT, NK) /\ SymmetricGrid(NK, gset) /\ (NKdiv = None \/ SymmetricGrid(NKdiv, gset))
                     THEN RECS ELSE {<<1, 1, 1>>})
